@@ -52,6 +52,7 @@ public:
     {
         results.clear();
         cse_intermediate_fns.clear();
+        cse_intermediate_fns_map.clear();
         symbols = inputs;
         if (not cse) {
             for (auto &p : outputs) {
@@ -111,18 +112,21 @@ public:
 
     void bvisit(const Symbol &x)
     {
-        for (unsigned i = 0; i < symbols.size(); ++i) {
-            if (eq(x, *symbols[i])) {
-                result_ = [=](const T *x) { return x[i]; };
-                return;
-            }
-        }
+        // A replacement symbol chosen by cse() never occurs in the outputs,
+        // but an input that the outputs do not use may carry the same name
+        // (x0, x1, ...): the replacement has to win.
         auto it = cse_intermediate_fns_map.find(x.rcp_from_this());
         if (it != cse_intermediate_fns_map.end()) {
             auto index = it->second;
             T *cse_intermediate_result = &(cse_intermediate_results[index]);
             result_ = [=](const T *x) { return *cse_intermediate_result; };
             return;
+        }
+        for (unsigned i = 0; i < symbols.size(); ++i) {
+            if (eq(x, *symbols[i])) {
+                result_ = [=](const T *x) { return x[i]; };
+                return;
+            }
         }
         throw SymEngineException("Symbol not in the symbols vector.");
     };
